@@ -47,7 +47,8 @@ Inductive it :=
 | Collect (c : collector) (acc : list val) (i : it)
 | Cycle (saved : list val) (i : it)
 | CycleL (orig cur : list val)
-| Repeat (v : val) (n : option nat).
+| Repeat (v : val) (n : option nat)
+| Flatten (i : it).
 
 Inductive outcome := Yield (v : val) (i : it) | Done | Fail (e : err) | NoFuel.
 
@@ -248,6 +249,15 @@ Fixpoint next (fuel : nat) (s : st) (i : it) {struct fuel} : st * outcome :=
     | Repeat v None => (s, Yield v (Repeat v None))
     | Repeat v (Some O) => (s, Done)
     | Repeat v (Some (S n)) => (s, Yield v (Repeat v (Some n)))
+    | Flatten j =>
+        match next fu s j with
+        | (s1, Yield x j') =>
+            match x with
+            | VList _ l => next fu s1 (Chain (OfList (flat_map flat_val l)) (Flatten j'))
+            | v => (s1, Yield v (Flatten j'))
+            end
+        | r => r
+        end
     end
   end.
 
@@ -352,7 +362,11 @@ Inductive stage :=
 | SKeysList | SValuesList | SItemsList
 | SDictGet (k : val) (d : option val) | SContainsKey (k : val) | SContainsValue (v : val)
 | SUnion (l : list val) | SIntersect (l : list val) | SDifference (l : list val) | SSymDiff (l : list val)
-| SSetAdd (vs : list val) | SSetRemove (vs : list val).
+| SSetAdd (vs : list val) | SSetRemove (vs : list val)
+| SFlatten | SDefaultIfEmpty (d : list val) | STimes (n : Z)
+| SIsList | SIsDict | SIsSet | SIsIterable
+| SSetCmp (op : nat) (l : list val)          (* 0 <, 1 <=, 2 >, 3 >= *)
+| SIndex (k : val) | SIndexDefault (k : val) (d : val).
 
 (* yaqltypes.Iterable(): tuples, lists, sets, iterators, OrderingIterable; not dicts *)
 Definition as_it (r : rv) : option it :=
@@ -660,6 +674,42 @@ Definition apply_stage (fuel : nat) (s : st) (sg : stage) (r : rv) : rr :=
   | SSymDiff l => match r with RSet a => (s, Ok (RSet (set_symdiff a (set_of_list l)))) | _ => no_match s end
   | SSetAdd vs => match r with RSet a => (s, Ok (RSet (set_union a (set_of_list vs)))) | _ => no_match s end
   | SSetRemove vs => match r with RSet a => (s, Ok (RSet (set_diff a (set_of_list vs)))) | _ => no_match s end
+  | SFlatten => with_it s r (fun i => ok_it s (Flatten i))
+  | SDefaultIfEmpty d =>
+      match r with
+      | RVal (VList _ []) | RSet [] => ok_val s (VList false d)
+      | RVal (VList _ _) | RSet _ => (s, Ok r)
+      | _ => with_it s r (fun i =>
+               match next fuel s i with
+               | (s1, Yield v i') => ok_it s1 (Chain (OfList [v]) (Memo i'))
+               | (s1, Done) => ok_val s1 (VList false d)
+               | (s1, Fail e) => (s1, Err e)
+               | (s1, NoFuel) => (s1, OutOfFuel)
+               end)
+      end
+  | STimes n => match r with RVal (VList m l) => ok_val s (VList m (times_l l n)) | _ => no_match s end
+  | SIsList => ok_val s (VBool (match r with RVal (VList _ _) => true | _ => false end))
+  | SIsDict => ok_val s (VBool (match r with RDict _ _ => true | _ => false end))
+  | SIsSet => ok_val s (VBool (match r with RSet _ => true | _ => false end))
+  | SIsIterable => ok_val s (VBool (match as_it r with Some _ => true | None => false end))
+  | SSetCmp op l =>
+      match r with
+      | RSet a => let b := set_of_list l in
+                  ok_val s (VBool (match op with 0 => set_lt a b | 1 => set_le a b | 2 => set_lt b a | _ => set_le b a end))
+      | _ => (s, Unsupported)
+      end
+  | SIndex k =>
+      match r, k with
+      | RVal (VList _ l), VInt i => match py_index l i with Some v => ok_val s v | None => (s, Err EIndex) end
+      | RDict _ d, _ => if hashable k then match dict_get_l k d with Some v => ok_val s v | None => (s, Err EKey) end
+                        else (s, Err EType)
+      | _, _ => no_match s
+      end
+  | SIndexDefault k dflt =>
+      match r with
+      | RDict _ d => if hashable k then ok_val s (match dict_get_l k d with Some v => v | None => dflt end) else (s, Err EType)
+      | _ => no_match s
+      end
   end.
 
 Fixpoint apply_stages (fuel : nat) (s : st) (sgs : list stage) (r : rv) : rr :=
